@@ -237,7 +237,7 @@ class C16(Check):
                    'failure bound: wait_before x commands + timeout + 1 s receive granularity + 1 s',
                    'reconnect rate is judged on attempts made from caller tasks (communicate -> check_connection); the '
                    'poll thread attempts once per pollinterval by construction']
-    PROBES = ('c16.concurrent-callers', 'c16.multicomm', 'c16.late-reply', 'fault.device-close', 'fault.device-silent',
+    PROBES = ('c16.write-after-idle-disconnect', 'c16.concurrent-callers', 'c16.multicomm', 'c16.late-reply', 'fault.device-close', 'fault.device-silent',
               'fault.device-refuse', 'c16.reconnect', 'c16.garbage', 'c16.bytes-mode', 'c16.string-mode',
               'c16.two-byte-eol', 'c16.variable-length-replies', 'c16.callback-communicates', 'c16.callback-raised')
 
@@ -522,6 +522,25 @@ class C16(Check):
             if t['n'] is not None:
                 u = cmd_uid(dev.rx[t['n']]['cmd'])
                 tx_by_uid.setdefault(u, t)
+        # a command sent without waiting for a reply (writeline) long after the device had closed the idle line:
+        # the call must fail with a communication error, not return as if the command had gone out
+        oks_ = sorted(t for (t, port, o, _task) in ctx['connect_log'] if port == PORT and o == 'ok')
+        for c in calls:
+            if c.get('kind') != 'write' or 'result' not in c:
+                continue
+            before = [t for t in oks_ if t <= c['t0']]
+            loss_by_idx = {i: (t, w) for (t, i, w) in dev.losses}
+            if not before or any(i not in loss_by_idx for i in range(len(before))):
+                continue        # some connection made before the call may still have been open
+            last_loss, why = max(loss_by_idx[i] for i in range(len(before)))
+            if c['t0'] - last_loss > 1.0 and not any(c['t0'] < t <= c['t1'] for t in oks_):
+                bump('c16.write-after-idle-disconnect')
+                if c['result'][0] != 'ok' or c.get('uid') in rx_by_uid:
+                    continue
+                res.append(Violation('C16.write-lost', f'after-idle-disconnect|{why}',
+                                     f'{c["task"]} writeline uid {c["uid"]} at t={c["t0"]:.3f} returned without error, but the '
+                                     f'device had dropped the connection at t={last_loss:.3f} ({why}) and never got the command'))
+                break
         if len(dev.conns) > 1:
             bump('c16.reconnect')
         any_garbage = any(st['kind'] == 'garbage' for st in shape['replies'])
